@@ -175,6 +175,8 @@ def install_spec(reg):
         return c.fields["sent"]
 
     sf["conn_sent"] = conn_sent
+    # len(s) == 0, said as an equation (the form the sequence solvers use directly)
+    sf["no_records"] = lambda it, s: VBool(s.z == z3.Empty(s.z.sort()))
     # the records appended to a queue since an earlier state of it
     sf["new_part"] = lambda it, q, q0: VSeq(z3.Extract(q.z, L(q0.z), L(q.z) - L(q0.z)), q.elem)
 
@@ -334,14 +336,14 @@ def install_spec(reg):
 
     def n_calls(it, suffix):
         suffix = it.concrete(suffix)
-        return VInt(sum(1 for e in it.ctx.trace if e[0] == "call" and e[1][0].endswith(suffix)))
+        return VInt(sum(1 for e in it.ctx.trace if e[0] == "call" and suffix in e[1][0]))
 
     sf["n_calls"] = n_calls
 
     def call_arg(it, suffix, k, name):
-        """argument `name` of the k-th contract call whose target ends with suffix"""
+        """argument number `name` (0 = self) of the k-th contract call whose target ends with suffix"""
         suffix, k, name = it.concrete(suffix), it.concrete(k), it.concrete(name)
-        evs = [e for e in it.ctx.trace if e[0] == "call" and e[1][0].endswith(suffix)]
+        evs = [e for e in it.ctx.trace if e[0] == "call" and suffix in e[1][0]]
         if k >= len(evs):
             return NONE
         return evs[k][1][1][name]
@@ -360,7 +362,7 @@ INV_Q = [
     "len(self._outbound_queue) <= self._next_outbound_seqnum",
     "contig(self._outbound_queue, self._next_outbound_seqnum)",
     "suffix_of(self._queued_unsent, self._outbound_queue)",
-    "self._connection is not None or len(self._queued_unsent) == 0",
+    "self._connection is not None or no_records(self._queued_unsent)",
 ]
 INV_P = [
     "partition(self._all_producers, self._paused_producers, self._unpaused_producers)",
@@ -483,9 +485,9 @@ RELY = [
     "self._outbound_queue == old(self._outbound_queue) + W",
     "self._next_outbound_seqnum == old(self._next_outbound_seqnum) + len(W)",
     "self._connection is None or conn_sent(self) + self._queued_unsent == old(conn_sent(self)) + old(self._queued_unsent) + W",
-    "self._connection is not None or len(self._queued_unsent) == 0",
+    "self._connection is not None or no_records(self._queued_unsent)",
     "not old(self._paused) or self._paused",
-    "len(old(self._queued_unsent)) > 0 or len(self._queued_unsent) == 0",
+    "len(old(self._queued_unsent)) > 0 or no_records(self._queued_unsent)",
 ]
 RELY_NAMES = ["queue-only-grows", "seqnum-counts-queued", "stream-to-connection-only-grows-by-the-same",
               "no-connection-nothing-unsent", "pause-is-sticky", "empty-backlog-stays-empty"]
